@@ -15,8 +15,8 @@
 (* Trace (NDJSON, env TRACE): first record = the scenario                  *)
 (*   [len, salloc, driver, bs, reflink, kcopy, prior, cell, dcells]        *)
 (* then events, in log order of the call's RETURN:                         *)
-(*   [e |-> "create"]                      open(dst, O_CREAT|O_TRUNC)      *)
-(*   [e |-> "alloc", n]                    ftruncate(dst, n cells)         *)
+(*   [e |-> "create"]                      open(dst, O_CREAT)              *)
+(*   [e |-> "alloc", n]                    ftruncate(dst, n cells): first 0, then the length *)
 (*   [e |-> "clone", ans]                  FICLONE answered ok/unsupported/error *)
 (*   [e |-> "seek", d, h]                  SEEK_DATA / SEEK_HOLE pair (cells, 0-based) *)
 (*   [e |-> "copy", off, req, ret]         one kernel copy; off = -1 for the cursor form *)
@@ -51,6 +51,7 @@ TInit ==
 
 \* --- event-consuming steps: the XcpData action, restricted to the logged arguments
 TCreate   == Is("create") /\ Create /\ Consume
+TTruncate == Is("alloc") /\ Ev.n = 0 /\ Truncate /\ Consume                  \* set_len(0) on the verified descriptor
 TAllocate == Is("alloc") /\ Ev.n = len /\ Allocate /\ Consume
 TClone    == Is("clone") /\ reflink # "never" /\ Clone /\ cloneAns' = Ev.ans /\ Consume
 TSeek     == Is("seek") /\ Seek /\ (pc' = "bytes" => cur' = Ev.d /\ pos' = Ev.h) /\ Consume
@@ -71,7 +72,7 @@ SQueue    == Queue /\ Keep
 SDrain    == Drain /\ Keep
 SFinEnd   == ~Has /\ pc = "finalise" /\ Finalise /\ Keep          \* nothing was requested at finalisation (no-perms, no-timestamps, no fsync)
 
-TNext == TCreate \/ TAllocate \/ TClone \/ TSeek \/ TCopyCur \/ TCopyOff \/ TFiemap \/ TFin
+TNext == TCreate \/ TTruncate \/ TAllocate \/ TClone \/ TSeek \/ TCopyCur \/ TCopyOff \/ TFiemap \/ TFin
          \/ SClone \/ SBytes0 \/ SBytesEnd \/ SSeekEnd \/ SWhole \/ SQueue \/ SDrain \/ SFinEnd
 TSpec == TInit /\ [][TNext]_tvars
 
